@@ -11,5 +11,7 @@ def run(ctx):
     ca.request_layout(ctx)
     ca.req_dispatch(ctx, "J1939_21")
     ca.req_guard(ctx)
+    ctx.rule("R-SUBSCRIBER-RULE", "the dispatch predicate: message_acceptable <=> NORMAL and (dest == GLOBAL or held address == dest)", floor=1)
+    ca.message_acceptable_rule(ctx)
     ca.claim_only(ctx)
     return "request encoding/decoding, dispatch guard, handler guard formula and fan-out decided for all PGNs and addresses"
